@@ -72,7 +72,7 @@ Lemma tree_ind2 (P : tree -> Prop) :
   (forall l ks, Forall P ks -> P (Node l ks)) -> forall t, P t.
 Proof.
   intros H. fix IH 1. intros [l ks]. apply H.
-  induction ks as [|k r IHr]; constructor; [apply IH|exact IHr].
+  induction ks as [|k r IHr]; [constructor|constructor; [apply IH|exact IHr]].
 Qed.
 
 Fixpoint flatten_list (m : id) (ks : list tree) : list entry :=
@@ -80,8 +80,7 @@ Fixpoint flatten_list (m : id) (ks : list tree) : list entry :=
 
 Lemma flatten_eq n l ks : flatten n (Node l ks) = (l, kid_ids (S n) ks) :: flatten_list (S n) ks.
 Proof.
-  cbn [flatten]. f_equal. generalize (S n).
-  induction ks as [|k r IH]; intros m; [reflexivity|]. cbn [flatten_list]. rewrite <- IH. reflexivity.
+  reflexivity.
 Qed.
 
 Lemma tsize_pos t : 1 <= tsize t.
@@ -91,7 +90,9 @@ Lemma flatten_length t : forall n, length (flatten n t) = tsize t.
 Proof.
   induction t as [l ks IH] using tree_ind2. intros n. rewrite flatten_eq. cbn [length tsize]. f_equal.
   generalize (S n). induction IH as [|k r Hk _ IHr]; intros m; [reflexivity|].
-  cbn [flatten_list map list_sum]. rewrite app_length, Hk, IHr. reflexivity.
+  cbn [flatten_list map].
+  change (list_sum (tsize k :: map tsize r)) with (tsize k + list_sum (map tsize r)).
+  rewrite app_length, Hk, IHr. reflexivity.
 Qed.
 
 Definition K (es : list entry) : list id := flat_map snd es.
@@ -106,10 +107,12 @@ Proof.
   unfold K. cbn [flat_map snd tsize]. fold (K (flatten_list (S n) ks)).
   replace (S (list_sum (map tsize ks)) - 1) with (list_sum (map tsize ks)) by lia.
   generalize (S n). induction IH as [|k r Hk _ IHr]; intros m; [constructor|].
-  cbn [kid_ids flatten_list map list_sum]. rewrite K_app, seq_app.
+  cbn [kid_ids flatten_list map].
+  change (list_sum (tsize k :: map tsize r)) with (tsize k + list_sum (map tsize r)). rewrite K_app, seq_app.
   pose proof (tsize_pos k) as Hp.
-  replace (seq m (tsize k)) with (m :: seq (S m) (tsize k - 1))
-    by (destruct (tsize k) as [|s]; [lia|cbn [seq]; rewrite Nat.sub_0_r; reflexivity]).
+  assert (Es : seq m (tsize k) = m :: seq (S m) (tsize k - 1)).
+  { destruct (tsize k) as [|s]; [lia|]. cbn [seq]. replace (S s - 1) with s by lia. reflexivity. }
+  rewrite Es.
   cbn [app]. constructor.
   eapply Permutation_trans; [apply Permutation_app_swap_app|].
   apply Permutation_app; [apply Hk|apply IHr].
@@ -136,7 +139,7 @@ Proof.
     + intros Hc. rewrite Hc in H1. cbn in H1. apply andb_true_iff in H1 as [A B].
       destruct ks; [|discriminate]. destruct (lattrs l); [|discriminate]. split; reflexivity.
     + apply (nodupb_sound str_eqb); [|exact H3]. intros a b ->. apply streqb_refl.
-  - generalize (S n). induction IH as [|k r Hk _ IHr]; intros m; [constructor|].
+  - clear H1. generalize (S n). induction IH as [|k r Hk _ IHr]; intros m; [constructor|].
     cbn [forallb] in H2. apply andb_true_iff in H2 as [G1 G2]. cbn [flatten_list].
     apply Forall_app. split; [apply Hk, G1|apply IHr, G2].
 Qed.
@@ -156,6 +159,9 @@ Qed.
 
 Definition root_good (t : tree) : Prop :=
   match t with Node l _ => is_comment (ltag l) = false /\ ltail l = None end.
+
+Lemma flab_root t : flab (forest_of_tree t) 0 = match t with Node l _ => l end.
+Proof. destruct t. reflexivity. Qed.
 
 Theorem forest_of_tree_wf t :
   tree_goodb t = true -> root_good t -> wf_forest (forest_of_tree t) 0.
@@ -185,9 +191,101 @@ Proof.
   - intros p Hp. apply Hnd1, Hseq, Hp.
   - intros p q c Hp Hq Hcp Hcq. eapply Hnd2; eauto. apply seq_NoDup.
   - intros p Hp Hc. specialize (Hrange 0 (Hin p 0 Hp Hc)). lia.
-  - destruct t as [l ks]. unfold es. rewrite flatten_eq. cbn. apply Hr.
-  - destruct t as [l ks]. unfold es. rewrite flatten_eq. cbn. apply Hr.
+  - change (flab f 0) with (flab (forest_of_tree t) 0). rewrite flab_root. destruct t; apply Hr.
+  - change (flab f 0) with (flab (forest_of_tree t) 0). rewrite flab_root. destruct t; apply Hr.
   - intros n Hn Hc. destruct (Hent n Hn) as (e & E & [G1 _]). cbn [flab fkids f] in *. rewrite E in *.
     apply G1, Hc.
   - intros n Hn. destruct (Hent n Hn) as (e & E & [_ G2]). cbn [flab f]. rewrite E. exact G2.
+Qed.
+
+(* ------------------------------------------------------------------ *)
+(** * Item trees                                                        *)
+(* ------------------------------------------------------------------ *)
+Fixpoint attrs_distinctb (x : item) : bool :=
+  match x with
+  | IElem _ a c => nodupb str_eqb (map fst a) && forallb attrs_distinctb c
+  | _ => true
+  end.
+
+Definition is_elem_item (x : item) : bool := match x with IElem _ _ _ => true | _ => false end.
+
+Lemma tree_of_item_good x : attrs_distinctb x = true -> forall tail, tree_goodb (tree_of_item x tail) = true.
+Proof.
+  induction x as [s | s | t a c IH] using item_ind'; intros H tail; try reflexivity.
+  cbn [attrs_distinctb] in H. apply andb_true_iff in H as [H1 H2].
+  cbn [tree_of_item tree_goodb]. apply andb_true_iff. split.
+  - unfold node_okb. cbn [ltag lattrs is_comment negb orb andb]. exact H1.
+  - clear H1. induction IH as [|y r Hy _ IHr]; [reflexivity|].
+    cbn [forallb] in H2. apply andb_true_iff in H2 as [G1 G2].
+    destruct y as [s | t' a' c' | s]; [apply IHr, G2| |].
+    + cbn [forallb]. rewrite (Hy G1), (IHr G2). reflexivity.
+    + cbn [forallb]. rewrite (Hy G1), (IHr G2). reflexivity.
+Qed.
+
+Lemma strip_items_distinct (f : item -> item) l :
+  Forall (fun y => attrs_distinctb y = true -> attrs_distinctb (f y) = true) l ->
+  forallb attrs_distinctb l = true ->
+  forall e s, forallb attrs_distinctb (strip_items f e s l) = true.
+Proof.
+  induction 1 as [|y r Hy _ IHr]; intros H e s; [reflexivity|].
+  cbn [forallb] in H. apply andb_true_iff in H as [G1 G2].
+  destruct y as [t | t a c | t].
+  - rewrite strip_items_text. destruct (_ && _); [apply IHr, G2|].
+    cbn [forallb attrs_distinctb andb]. apply IHr, G2.
+  - rewrite strip_items_node by reflexivity. cbn [forallb]. rewrite (Hy G1), (IHr G2). reflexivity.
+  - rewrite strip_items_node by reflexivity. cbn [forallb]. rewrite (Hy G1), (IHr G2). reflexivity.
+Qed.
+
+Lemma strip_distinct x : attrs_distinctb x = true -> attrs_distinctb (strip_blank x) = true.
+Proof.
+  unfold strip_blank. induction x as [s | s | t a c IH] using item_ind'; intros H; try exact H.
+  cbn [attrs_distinctb strip_item] in *. apply andb_true_iff in H as [H1 H2]. rewrite H1. cbn [andb].
+  apply strip_items_distinct; assumption.
+Qed.
+
+Theorem forest_of_item_wf x :
+  is_elem_item x = true -> attrs_distinctb x = true -> wf_forest (forest_of_item x) 0.
+Proof.
+  intros He Hd. apply forest_of_tree_wf; [apply tree_of_item_good, Hd|].
+  destruct x; try discriminate. cbn. split; reflexivity.
+Qed.
+
+(* ------------------------------------------------------------------ *)
+(** * Re-indentation is invisible to the differ when blanks are stripped *)
+(* ------------------------------------------------------------------ *)
+Theorem reindent_same_forest s T :
+  layered T = true ->
+  forest_of_item (strip_blank (reindent s T)) = forest_of_item (strip_blank T).
+Proof. intros H. rewrite (reindent_invisible s T H). reflexivity. Qed.
+
+Theorem reindent_empty_script :
+  forall (sim : Type) (sim_ltb sim_leb : sim -> sim -> bool) (sim_is_one : sim -> bool)
+         (zero one : sim) (leaf_sim : str -> str -> sim) (combine : sim -> nat -> nat -> sim)
+         (o : mopts sim) (s : scheme) (T : item) (lns : nsmap),
+  (forall s, sim_is_one (leaf_sim s s) = true) ->
+  (forall m n, sim_is_one m = true -> 0 < n -> sim_is_one (combine m n n) = true) ->
+  sim_is_one one = true ->
+  (forall x, sim_is_one x = true -> sim_ltb zero x = true) ->
+  (forall x, sim_is_one x = true -> sim_leb (oF sim o) x = true) ->
+  (ofast sim o = true -> sim_leb (oF sim o) zero = false) ->
+  (ofast sim o = true ->
+   forall s t n x n', 0 < n -> sim_leb (oF sim o) (combine (leaf_sim s t) 0 n) = true ->
+                      sim_is_one x = true -> 0 < n' ->
+                      sim_leb (oF sim o) (combine x 0 n') = true) ->
+  layered T = true -> is_elem_item T = true -> attrs_distinctb T = true ->
+  (forall k v, In (k, v) lns -> ns_get lns k = Some v) ->
+  let L := forest_of_item (strip_blank T) in
+  let R := forest_of_item (strip_blank (reindent s T)) in
+  wf_forest L 0 /\ R = L /\
+  diff_model sim sim_ltb sim_leb sim_is_one zero one leaf_sim combine o L R 0 0 lns lns = Some ([], L).
+Proof.
+  intros sim sim_ltb sim_leb sim_is_one zero one leaf_sim combine o s T lns
+         H1 H2 H3 H4 H5 H6 H7 Hlay Hel Hd Hns L R.
+  assert (HR : R = L) by (apply reindent_same_forest, Hlay).
+  assert (Hwf : wf_forest L 0).
+  { apply forest_of_item_wf; [|apply strip_distinct, Hd]. destruct T; try discriminate. reflexivity. }
+  split; [exact Hwf|]. split; [exact HR|]. rewrite HR.
+  destruct (equal_docs_empty_script sim sim_ltb sim_leb sim_is_one zero one leaf_sim combine
+              o L L 0 lns H1 H2 H3 H4 H5 H6 H7 Hwf (same_doc_refl L) Hns) as (m & Hm & _ & _ & Hdg).
+  unfold diff_model. rewrite Hm. exact Hdg.
 Qed.
